@@ -23,3 +23,21 @@ Proof.
   destruct (reg_analysis (q_arch64 q) (q_ops q)) as [mask high] eqn:RA. simpl fst in Z. rewrite Z in H.
   injection H as <-. intros I. apply remove_not_in in I. rewrite has_self in I. discriminate.
 Qed.
+
+(* rw_info_of / select_row: when the number of operands equals the number of entries of the record selected by operand count (the explicit
+   form), the record and the identity map are used - the implicit-shape matching cannot change the answer for explicit forms. *)
+Lemma select_row_explicit T ii nops :
+  let sel := if Nat.eqb nops 2 then nthN (t_rwa T) (ir_a ii) d_rw else nthN (t_rwb T) (ir_b ii) d_rw in
+  entry_count sel = nops -> select_row T ii nops = (sel, seq 0 6).
+Proof.
+  intros sel H. unfold select_row. fold sel. rewrite H, Nat.eqb_refl. rewrite andb_false_r. reflexivity.
+Qed.
+
+(* ... and special categories never go through the implicit-shape matching *)
+Lemma select_row_special T ii nops :
+  let sel := if Nat.eqb nops 2 then nthN (t_rwa T) (ir_a ii) d_rw else nthN (t_rwb T) (ir_b ii) d_rw in
+  (1 < rr_cat sel)%N -> select_row T ii nops = (sel, seq 0 6).
+Proof.
+  intros sel H. unfold select_row. fold sel. replace (rr_cat sel <=? 1)%N with false; [reflexivity|].
+  symmetry. apply N.leb_gt. exact H.
+Qed.
